@@ -308,10 +308,15 @@ def c01_5(ctx):
               and norm(h1.args[0]) == "order_size" and norm(h1.args[1]) == "'big'", "bits2octets-hash", ctx.where(f),
               "deterministic_generate_k: h1 is `%s`, expected val.to_bytes(order_size, 'big') after reduction" % (norm(h1) if h1 is not None else None))
     # reductions of val
-    augs = [(n, ru.enclosing_test(f.node, n)) for n in body_nodes(f.node) if isinstance(n, ast.AugAssign) and norm(n.target) == z_]
-    red = {n.op.__class__.__name__: (norm(n.value), norm(t) if t is not None else None) for n, t in augs}
-    ok = red.get("RShift") == ("shift", "shift > 0") and red.get("Sub") in ((n_, "%s >= %s" % (z_, n_)), ("n", "%s >= n" % z_))
-    ctx.check(ok, "bits2int-reduction", ctx.where(f), "deterministic_generate_k: reductions of val are %s; expected `val >>= shift` under shift > 0 and `val -= n` under val >= n" % red)
+    w0 = GuardWalker(ru.opaque)
+    w0.run(f.node.body)
+    red = {}
+    for st, reach in w0.visits:
+        if isinstance(st, ast.AugAssign) and norm(st.target) == z_:
+            red[st.op.__class__.__name__] = (norm(st.value), reach)
+    ok = "RShift" in red and red["RShift"][0] == "shift" and gi.f_equiv(red["RShift"][1], ("op", "shift > 0")) and "Sub" in red and \
+        red["Sub"][0] in (n_, "n") and gi.f_equiv(red["Sub"][1], ("op", "%s >= %s" % (z_, red["Sub"][0])))
+    ctx.check(ok, "bits2int-reduction", ctx.where(f), "deterministic_generate_k: reductions of val are %s; RFC 6979 bits2octets needs `val >>= shift` exactly when shift > 0 and `val -= n` exactly when val >= n" % red)
     ctx.check(ex(ast.parse("shift", mode="eval").body) in ("8 * hash_f().digest_size - n.bit_length()", "8 * hash_f().digest_size - %s.bit_length()" % n_), "shift", ctx.where(f),
               "deterministic_generate_k: shift expands to %s" % ex(ast.parse("shift", mode="eval").body))
     # straight-line prefix: initial v, k and the four HMAC steps
